@@ -174,18 +174,21 @@ public:
     void setParticlePositions(const double pp[]) {
         std::copy_n(pp, num_dimensions * num_particles, particle_positions.begin());
         positions_initialized = true;
+        cache_initialized = false; // the cached objective values belong to the old positions
     }
     //! \brief Set the particle positions, vector variant.
     void setParticlePositions(const std::vector<double> &pp) {
         checkVarSize("ParticleSwarmState::setParticlePositions", "particle position", pp.size(), num_dimensions * num_particles);
         particle_positions = pp;
         positions_initialized = true;
+        cache_initialized = false; // the cached objective values belong to the old positions
     }
     //! \brief Set the particle positions, with a move.
     void setParticlePositions(std::vector<double> &&pp) {
         checkVarSize("ParticleSwarmState::setParticlePositions", "particle positions", pp.size(), num_dimensions * num_particles);
         particle_positions = std::move(pp);
         positions_initialized = true;
+        cache_initialized = false; // the cached objective values belong to the old positions
     }
     //! \brief Set the particle velocities.
     void setParticleVelocities(const double pv[]) {
@@ -208,18 +211,21 @@ public:
     void setBestParticlePositions(const double bpp[]) {
         std::copy_n(bpp, num_dimensions * (num_particles + 1), best_particle_positions.begin());
         best_positions_initialized = true;
+        cache_initialized = false; // the cached objective values belong to the old positions
     }
     //! \brief Sets the best position per particle.
     void setBestParticlePositions(const std::vector<double> &bpp) {
         checkVarSize("ParticleSwarmState::setBestParticlePositions", "best particle positions", bpp.size(), num_dimensions * (num_particles + 1));
         best_particle_positions = bpp;
         best_positions_initialized = true;
+        cache_initialized = false; // the cached objective values belong to the old positions
     }
     //! \brief Sets the best position per particle, allows for a move.
     void setBestParticlePositions(std::vector<double> &&bpp) {
         checkVarSize("ParticleSwarmState::setBestParticlePositions", "best particle positions", bpp.size(), num_dimensions * (num_particles + 1));
         best_particle_positions = std::move(bpp);
         best_positions_initialized = true;
+        cache_initialized = false; // the cached objective values belong to the old positions
     }
 
     //! \brief Clear the previously best known particle velocities.
